@@ -16,6 +16,10 @@ claimed = {
    text="Bounded exhaustive model checking of Eval totality: every built-in x every arity 0..max+1 x a 27-value type-chaotic alphabet (functions as data, nested/empty containers, null, missing) in three call forms, arity 3-4 over a 12-value alphabet, ~80 node shapes (operators, predicates, paths, wildcards, sort, group, chain, transform, partials, typed lambdas, internal field names of function objects) x value tuples, depth-2 compositions f(g(v),w) over all built-in pairs, typed lambdas over 13 types x 4 options x argument lists, every corpus program in every child position; each evaluated on 3 inputs in watchdogged workers.",
    note="Trusted: watchdog and panic capture as for C08. Numbers in the alphabet are small so size-like arguments stay bounded (the statement bounds them); depth-3 compositions are outside the bound. Only 'returns without panic/hang' is checked here; values belong to the other properties.",
    technique="explicit enumeration of bounded type-chaotic programs (stateless DFS) with totality oracle in isolated worker processes", design="§5 C09", engine=E1),
+ "C11": dict(
+   text="Bounded exhaustive model checking: every string literal of <=3 (thorough: 4) units over a 28-unit alphabet of characters and valid/malformed escapes in both quote styles, the full product of number syntaxes (sign x 8 integer parts x 5 fractions x 10 exponents, bare and nested), and every JSON structure of depth <=2 (thorough: 3) and width <=2 in 3 whitespace policies, each evaluated on 7 inputs and compared with a strict RFC 8259 reference decoder (cross-checked against encoding/json).",
+   note="Trusted: the 60-line reference string decoder, strconv.ParseFloat for the nearest double, encoding/json for structures. Texts that JSON itself rejects for reasons other than escapes/surrogates/range are outside the statement.",
+   technique="explicit enumeration of all bounded JSON texts (stateless DFS) vs reference JSON decoder", design="§5 C11", engine=E1),
 }
 pending_reason = "check not built yet in this session (planned, see DESIGN.md §5)"
 
